@@ -672,3 +672,25 @@ package interpreter
 //@ func interpreter.opcodeNotIf
 //@   bytes token
 //@   ensures[C05.opcodeNotIf] (=> (= err nil) (and (= (len (. t condStack)) (+ (old (len (. t condStack))) 1)) (forall ((k Int)) (=> (and (<= 0 k) (< k (old (len (. t condStack))))) (= (at (. t condStack) k) (old (at (. t condStack) k))))) (=> (not (old (spec.should_exec t (. op op val)))) (= (spec.cond_last t) 0)) (=> (and (old (spec.should_exec t (. op op val))) (not (old (spec.branch_exec t)))) (= (spec.cond_last t) 2)) (=> (and (old (spec.should_exec t (. op op val))) (old (spec.branch_exec t))) (and (>= (old (len (. t dstack stk))) 1) (= (spec.cond_last t) (ite (spec.truthy (old (spec.top_bytes t 0))) 0 1))))))
+
+// ---- C05 (continued): the other hash opcodes. calcHash(buf, h) = h.Write(buf); h.Sum(nil): for a fresh RIPEMD-160 state
+// (ghost tag hkind = 1, set by ripemd160.New) that is RIPEMD160(buf) - an assumed definition of the hash.Hash interface ----
+//@ func interpreter.calcHash
+//@   bytes token
+//@   define (=> (= (hkind hasher) 1) (= (bytes result) (bripemd160 (old (bytes buf)))))
+//@ func interpreter.opcodeSha256
+//@   bytes token
+//@   opt index-fn 1
+//@   ensures[C05.opcodeSha256] (and (= (= err nil) (>= (old (len (. t dstack stk))) 1)) (=> (= err nil) (spec.stack_res_bytes t 1 (bsha256 (old (spec.top_bytes t 0))))))
+//@ func interpreter.opcodeSha1
+//@   bytes token
+//@   opt index-fn 1
+//@   ensures[C05.opcodeSha1] (and (= (= err nil) (>= (old (len (. t dstack stk))) 1)) (=> (= err nil) (spec.stack_res_bytes t 1 (bsha1 (old (spec.top_bytes t 0))))))
+//@ func interpreter.opcodeRipemd160
+//@   bytes token
+//@   opt index-fn 1
+//@   ensures[C05.opcodeRipemd160] (and (= (= err nil) (>= (old (len (. t dstack stk))) 1)) (=> (= err nil) (spec.stack_res_bytes t 1 (bripemd160 (old (spec.top_bytes t 0))))))
+//@ func interpreter.opcodeHash160
+//@   bytes token
+//@   opt index-fn 1
+//@   ensures[C05.opcodeHash160] (and (= (= err nil) (>= (old (len (. t dstack stk))) 1)) (=> (= err nil) (spec.stack_res_bytes t 1 (bripemd160 (bsha256 (old (spec.top_bytes t 0)))))))
